@@ -218,6 +218,9 @@ def harnesses(tier):
         # concurrent callers do disturb each other — observed with a single preemption — but the helper is not among the
         # operations C14 enumerates and C16 quantifies over graphs and seeds only; recorded in DESIGN.md §10.6)
         H["H7 write||tucan"] = (["write-canon|v3:salt", "tucan|v3:single"], "dfa-cold")
+        # short bodies, explored to preemption bound 2 (the long harnesses would need ~10^7 schedules)
+        H["T1 empty-molecule parse||lexer-error parse"] = (["parse|/", "parse|Xy/"], "dfa-cold")
+        H["T2 empty-molecule parse||syntax-error parse"] = (["parse|/", "parse|HC/"], "dfa-cold")
     return {k: ([(n, items[n]) for n in names], init) for k, (names, init) in H.items()}
 
 
@@ -305,7 +308,7 @@ def schedule_engine(rep, tier):
     for hname, (bodies, init) in H.items():
         nthreads = len(bodies)
         bound = 1
-        if tier == "thorough" and nthreads == 2 and hname.startswith(("H1", "H2")):
+        if tier == "thorough" and nthreads == 2 and hname.startswith(("T1", "T2")):
             bound = 2
         _BOUND[(tier, hname)] = bound
         stats = {"schedules": 0, "steps": 0, "paths": set(), "final_states": set(), "bound": bound, "threads": nthreads,
